@@ -775,6 +775,9 @@ def shard(seed, idx, n, tier):
         other_steps_prelim(rng, res)
     for _ in range(n):
         stop_products_tree(rng, res)
+    from harness import cliequiv
+    for _ in range(max(2, n)):
+        cliequiv.equiv_case(rng, res, "record")       # in-toto-record start / stop vs the library calls they stand for
     return res
 
 
